@@ -115,6 +115,20 @@ pub struct Workload {
     /// of file contents) is history for the judged pair.  Both layouts use the same paths.
     #[serde(default)]
     pub prelude: Option<Box<Workload>>,
+    /// the search path has an empty-string entry (what `os.path.dirname("main.clsp")` gives a
+    /// build script) at this position: it names the current directory, where the include
+    /// files `.1` and data files `.2` have copies of their own
+    #[serde(default)]
+    pub empty_entry: Option<(u8, Vec<usize>, Vec<usize>)>,
+}
+
+/// the search path as handed to the listing and to the compile
+fn search_list(w: &Workload) -> Vec<String> {
+    let mut search: Vec<String> = w.search.iter().map(|d| search_dir(w, *d)).collect();
+    if let Some((at, _, _)) = &w.empty_entry {
+        search.insert((*at as usize).min(search.len()), String::new());
+    }
+    search
 }
 
 /// where the files of search directory `d` really live
@@ -284,6 +298,30 @@ pub fn setup_dir(w: &Workload) {
     fs::create_dir_all(DIR).expect("mkdir run dir");
     for d in 0..8u8 {
         let _ = fs::remove_dir_all(format!("*v{}*", d));
+    }
+    // plain files in the current directory are copies an earlier layout placed there
+    if let Ok(rd) = fs::read_dir(".") {
+        for e in rd.flatten() {
+            if e.file_type().map(|t| !t.is_dir()).unwrap_or(false) {
+                let _ = fs::remove_file(e.path());
+            }
+        }
+    }
+    if let Some((_, incs, datas)) = &w.empty_entry {
+        for i in incs.iter() {
+            if let Some(inc) = w.incs.get(*i) {
+                if !inc.name.contains('/') {
+                    place(&inc.name, REAL, render_inc(w, *i, 66).as_bytes());
+                }
+            }
+        }
+        for d in datas.iter() {
+            if let Some(dt) = w.datas.get(*d) {
+                if !dt.name.contains('/') {
+                    place(&dt.name, REAL, &data_content(dt.kind, 66));
+                }
+            }
+        }
     }
     for d in 0..w.ndirs {
         fs::create_dir_all(format!("{}/d{}", DIR, d)).unwrap();
@@ -592,7 +630,8 @@ fn generate_layout(rng: &mut Rng, thorough: bool) -> Workload {
     // names spelt relative to "here" matter most where two lookups exist side by side:
     // classic programs compiled without options
     let (dotty_classic, dotty_entry) = (dotty && rng.chance(1, 2), dotty && rng.chance(1, 2));
-    Workload {
+    let ndata_all = datas.len();
+    let mut w = Workload {
         sigil: if dotty_classic {
             0
         } else {
@@ -634,7 +673,19 @@ fn generate_layout(rng: &mut Rng, thorough: bool) -> Workload {
         } else {
             vec![]
         },
+        empty_entry: None,
+    };
+    if rng.chance(1, 5) {
+        let at = rng.below(ndirs as u64 + 1) as u8;
+        let incs: Vec<usize> = (0..ninc.min(incs_len)).filter(|_| rng.chance(2, 3)).collect();
+        let datas: Vec<usize> = (0..ndata_all).filter(|_| rng.chance(1, 2)).collect();
+        w.empty_entry = Some((at, incs, datas));
+        // two lookups exist side by side for classic programs
+        if rng.chance(1, 2) {
+            w.sigil = 0;
+        }
     }
+    w
 }
 
 // ---------------------------------------------------------------------------------------
@@ -718,7 +769,7 @@ fn run_pair(actor: &Actor, w: &Workload, judged: bool) {
         use chialisp::compiler::comptypes::CompilerOpts;
         use chialisp::compiler::preprocessor::gather_dependencies;
         use chialisp::compiler::sexp::decode_string;
-        let search: Vec<String> = w.search.iter().map(|d| search_dir(w, *d)).collect();
+        let search: Vec<String> = search_list(w);
         let text = match fs::read_to_string(MAIN) {
             Ok(t) => t,
             Err(_) => {
@@ -1092,6 +1143,12 @@ impl Policy for C18Policy {
             return Err(v);
         }
         self.probes.hit("oracle_evaluated");
+        if self.w.empty_entry.is_some() {
+            self.probes.hit("oracle_evaluated_with_empty_search_path_entry");
+            if self.reads.iter().any(|p| !p.contains('/')) {
+                self.probes.hit("file_read_from_current_directory_through_empty_entry");
+            }
+        }
         self.probes.hit(&format!(
             "oracle_evaluated_entry_{}",
             [
@@ -1212,6 +1269,14 @@ fn drop_inc(w: &Workload, i: usize) -> Workload {
             *j -= 1;
         }
     }
+    if let Some((_, incs, _)) = c.empty_entry.as_mut() {
+        incs.retain(|j| *j != i);
+        for j in incs.iter_mut() {
+            if *j > i {
+                *j -= 1;
+            }
+        }
+    }
     c.hidden.retain(|(_, j)| *j != i);
     for (_, j) in c.hidden.iter_mut() {
         if *j > i {
@@ -1237,6 +1302,14 @@ fn drop_data(w: &Workload, d: usize) -> Workload {
     fix(&mut c.main_refs);
     for inc in c.incs.iter_mut() {
         fix(&mut inc.refs);
+    }
+    if let Some((_, _, datas)) = c.empty_entry.as_mut() {
+        datas.retain(|j| *j != d);
+        for j in datas.iter_mut() {
+            if *j > d {
+                *j -= 1;
+            }
+        }
     }
     c
 }
@@ -1355,6 +1428,25 @@ impl Prop for C18 {
             let mut c = w.clone();
             c.beside_main.clear();
             out.push(c);
+        }
+        if let Some((at, incs, datas)) = &w.empty_entry {
+            let mut c = w.clone();
+            c.empty_entry = None;
+            out.push(c);
+            if !datas.is_empty() {
+                let mut c = w.clone();
+                c.empty_entry = Some((*at, incs.clone(), vec![]));
+                out.push(c);
+            }
+            if incs.len() > 1 {
+                for k in 0..incs.len() {
+                    let mut c = w.clone();
+                    let mut v = incs.clone();
+                    v.remove(k);
+                    c.empty_entry = Some((*at, v, datas.clone()));
+                    out.push(c);
+                }
+            }
         }
         if w.prelude.is_some() {
             let mut c = w.clone();
